@@ -617,9 +617,17 @@ RUNNERS = {"prox_growth": run_prox_growth, "grid": run_grid, "ravel": run_ravel,
            "prox": run_prox}
 
 
+def archlib_gen_hooks(rng):
+    import archlib
+    return archlib.gen_hooks(rng)
+
+
 def run_case(case):
     import traceback
     from core import Infra
+    if case.get("kind") == "hooks":
+        import archlib
+        return archlib.run_hooks(case, {"C03"})
     drv = Driver("idx")
     try:
         return RUNNERS[case["kind"]](case, drv)
@@ -654,6 +662,8 @@ def run(ctx):
     ctx.explore("cvt", gen_cvt, run_case, ctx.n(80, 6000), nontrivial=nontrivial, time_budget=b)
     ctx.explore("sb", gen_sb, run_case, ctx.n(100, 8000), nontrivial=nontrivial, time_budget=b)
     ctx.explore("prox", gen_prox, run_case, ctx.n(80, 6000), nontrivial=nontrivial, time_budget=b)
+    # a user subclass overriding the documented routing hook `index_of`: index_of_single / retrieve go through it
+    ctx.explore("hooks", archlib_gen_hooks, run_case, ctx.n(60, 3000), time_budget=b)
     ctx.explore("prox-growth", gen_prox_growth, run_case, ctx.n(4, 200), nontrivial=nontrivial, time_budget=b)
     ctx.explore("cvt-overflow", gen_cvt_overflow, run_case, ctx.n(4, 40), nontrivial=nontrivial, time_budget=b)
     ctx.explore("extreme-magnitudes", gen_extreme, run_case, ctx.n(9, 60), nontrivial=nontrivial, time_budget=b)
